@@ -7,7 +7,7 @@ import torch
 from . import wq
 
 EVIDENCE = dict(
-    bounds="value clauses (RERR): rows/groups of 3 symbolic finite elements, case split on which element is the absmax (8-bit) or on the ordering (2/4-bit), float16/bfloat16/float32, all six qtypes, weights (AbsmaxOptimizer/MaxOptimizer via quantize_weight) and activations (absmax_scale); side conditions and locality (ALG support + permutation): ranks 1..4, dims <= 3, axis in {0,-1} (and None for absmax_scale), every divisor group size",
+    bounds="value clauses (RERR): rows/groups of 3 symbolic finite elements, case split on which element is the absmax (8-bit) or on the ordering (2/4-bit), float16/bfloat16/float32, all six qtypes, weights (AbsmaxOptimizer/MaxOptimizer via quantize_weight) and activations (absmax_scale); side conditions and locality (ALG support + permutation): ranks 1..4, dims <= 3, axis in {0,-1} (and None for absmax_scale), every divisor group size; histories: a weight of another float dtype quantized first through the process-wide default optimizers (4 dtype orders), compared with a run in a forked process without that history",
     outside="custom optimizers; shapes beyond the bounds; CUDA/MPS",
     assumptions=[
         "RERR standard model; overflow of absmax/qmax or max-min is the C16 clause (BIT)",
